@@ -831,6 +831,23 @@ func (fx *fnExec) run() (err error) {
 		fx.asserts = append(fx.asserts, assertion{-1, "(assert (> " + n + " 0))"})
 	}
 	fx.entry = st.clone()
+	// ghost maps keyed by reference have their default value at references not yet allocated
+	for _, gn := range fx.g.cs.GhostOrder {
+		g := fx.g.cs.Ghosts[gn]
+		if strings.HasPrefix(g.Sort, "[ref]") {
+			def := ""
+			switch strings.TrimPrefix(g.Sort, "[ref]") {
+			case "bool":
+				def = "false"
+			case "int":
+				def = "0"
+			}
+			if def != "" {
+				t := fx.ghostGet(fx.entry, gn)
+				fx.asserts = append(fx.asserts, assertion{-1, fmt.Sprintf("(assert (forall ((r Int)) (! (=> (> r alloc!0) (= (select %s r) %s)) :pattern ((select %s r)))))", t, def, t)})
+			}
+		}
+	}
 	// global axioms
 	for _, ax := range fx.g.cs.Axioms {
 		apkg := fx.pkg
@@ -1067,6 +1084,8 @@ func (fx *fnExec) loopModified(li *loopInfo) (cells map[*ssa.Alloc]bool, locs []
 				md, mv, ds, vs := fx.mapArrs(mt)
 				locs = append(locs, loc{arr: md, sort: ds}, loc{arr: mv, sort: vs})
 			case *ssa.MakeMap, *ssa.MakeSlice, *ssa.MakeChan, *ssa.MakeClosure:
+				allocs = true
+			case *ssa.Go, *ssa.Defer:
 				allocs = true
 			case ssa.CallInstruction:
 				allocs = true
@@ -1345,6 +1364,7 @@ func (fx *fnExec) loopFrame(li *loopInfo, before, after *state, locs []loc) {
 				md, mv, _, _ := fx.mapArrs(mt)
 				note(md, x.Map)
 				note(mv, x.Map)
+			case *ssa.Go, *ssa.Defer:
 			case ssa.CallInstruction:
 				ct, info := fx.g.contractForCall(fx, x.Common())
 				if ct != nil {
